@@ -225,7 +225,32 @@ async fn run_future(init: FutInit) {
             pc += 1;
             continue;
         }
-        let res = if is_async_op(&op.name) {
+        let res = if op.name == "pend_then" {
+            // `pend_then w <sync op…>`: a hand-written leaf future whose `poll`, when the slot is not ready, stores the
+            // waker and then performs a (possibly blocking) synchronous operation before it returns `Pending` — the
+            // task is `Blocked` in the middle of a poll, with its waker already published
+            let oi = wslot_index(&ctx.0, op.arg(0));
+            let inner = Op { name: op.arg(1).to_string(), args: op.args[2.min(op.args.len())..].to_vec() };
+            let stref = &mut st;
+            std::future::poll_fn(|cx| {
+                let slot = match &ctx.0.objs[oi] {
+                    Obj::WSlot(s) => s,
+                    _ => panic!("vh: not a wslot"),
+                };
+                if slot.flag.replace(false) {
+                    Poll::Ready(())
+                } else {
+                    *slot.waker.borrow_mut() = Some(cx.waker().clone());
+                    let _r = exec_op(&ctx, stref, &inner, pc, None);
+                    if std::env::var("VH_DEBUG").is_ok() {
+                        eprintln!("vh: pend_then poll -> Pending (inner {} = {})", inner.name, _r);
+                    }
+                    Poll::Pending
+                }
+            })
+            .await;
+            "ok".to_string()
+        } else if is_async_op(&op.name) {
             let mut toks = vec![op.name.clone()];
             toks.extend(op.args.iter().cloned());
             exec_async(&ctx, &toks).await
